@@ -11,7 +11,7 @@ with the new body, and the correspondence run looks for a concrete difference me
 import VaxisModel.Gen.SurfaceFacts
 import VaxisModel.Model.SurfaceSource
 
-/-! Round 4: `Surface.render`, `Center.Draw`, both `findContainerSize`, both `drawSoftwrap`, both `Draw` and `Button.Draw` are no longer pinned here: their regenerated
+/-! Round 4: `Surface.render`, `Center.Draw`, both `findContainerSize`, both `drawSoftwrap`, both `Draw`, `Button.Draw` and `TextField.Draw` are no longer pinned here: their regenerated
 bodies are executed by `Model/SurfExec.lean` and proved equal to the model for all inputs (`Props/C14Body.lean`), so a
 rewrite that keeps their meaning does not alarm and one that changes it fails that function's `body_eq_model`. -/
 
@@ -19,8 +19,6 @@ namespace VaxisModel.Props.C14Facts
 open VaxisModel
 
 theorem facts_runFrame : Gen.SurfaceFacts.runFrame = Model.SurfaceSource.runFrame := by decide +kernel
-
-theorem facts_textfieldDrawBody : Gen.SurfaceFacts.textfieldDrawBody = Model.SurfaceSource.textfieldDrawBody := by decide +kernel
 
 theorem facts_textHardLinesBody : Gen.SurfaceFacts.textHardLinesBody = Model.SurfaceSource.textHardLinesBody := by decide +kernel
 
